@@ -211,10 +211,14 @@ func cmdRegistry(args []string) {
 	marker, _ := lint.NewConfigFromString("[verif_marker]\nx = 1\n")
 	// filters are taken from the global registry and from two derived registries carrying a marker configuration
 	parents := []lint.Registry{g}
-	p1, _ := g.Filter(lint.FilterOptions{ExcludeSources: lint.SourceList{lint.Community}})
-	p1.SetConfiguration(marker)
-	p2, _ := g.Filter(lint.FilterOptions{NameFilter: regexp.MustCompile("^e_")})
-	parents = append(parents, p1, p2)
+	// (a Filter with valid options that fails here is itself recorded by the random jobs below; the derived parents are then left out)
+	if p1, err := g.Filter(lint.FilterOptions{ExcludeSources: lint.SourceList{lint.Community}}); err == nil && p1 != nil {
+		p1.SetConfiguration(marker)
+		parents = append(parents, p1)
+	}
+	if p2, err := g.Filter(lint.FilterOptions{NameFilter: regexp.MustCompile("^e_")}); err == nil && p2 != nil {
+		parents = append(parents, p2)
+	}
 	allSources := []lint.LintSource{lint.RFC3279, lint.RFC5280, lint.RFC5480, lint.RFC5891, lint.RFC6960, lint.RFC6962, lint.RFC8813,
 		lint.CABFBaselineRequirements, lint.CABFCSBaselineRequirements, lint.CABFSMIMEBaselineRequirements, lint.CABFEVGuidelines,
 		lint.MozillaRootStorePolicy, lint.AppleRootStorePolicy, lint.Community, lint.EtsiEsi, lint.UnknownLintSource, lint.LintSource("NoSuch")}
@@ -263,13 +267,16 @@ func cmdRegistry(args []string) {
 		}
 		return sl
 	}
-	views := []regView{v, viewOf(p1), viewOf(p2)}
+	views := []regView{}
+	for _, pr := range parents {
+		views = append(views, viewOf(pr))
+	}
 	var jobs []fjob
 	for i := 0; i < n; i++ {
 		pi := 0
-		if i%5 == 3 {
+		if i%5 == 3 && len(parents) > 1 {
 			pi = 1
-		} else if i%5 == 4 {
+		} else if i%5 == 4 && len(parents) > 2 {
 			pi = 2
 		}
 		var o lint.FilterOptions
